@@ -227,6 +227,16 @@ type MockTableHandler struct {
 	name string
 }
 
+// cloneRecord copies a record so that what a request holds is never the map
+// the store keeps (and later updates under its lock). Field values are shared.
+func cloneRecord(rec map[string]interface{}) map[string]interface{} {
+	c := make(map[string]interface{}, len(rec))
+	for k, v := range rec {
+		c[k] = v
+	}
+	return c
+}
+
 // All retrieves all records
 func (m *MockTableHandler) All() []interface{} {
 	m.db.mu.RLock()
@@ -235,7 +245,7 @@ func (m *MockTableHandler) All() []interface{} {
 	data := m.db.data[m.name]
 	result := make([]interface{}, len(data))
 	for i, v := range data {
-		result[i] = v
+		result[i] = cloneRecord(v)
 	}
 	return result
 }
@@ -261,7 +271,7 @@ func (m *MockTableHandler) Get(id interface{}) interface{} {
 
 	for _, record := range m.db.data[m.name] {
 		if sameID(record["id"], id) {
-			return record
+			return cloneRecord(record)
 		}
 	}
 	return nil
@@ -272,13 +282,16 @@ func (m *MockTableHandler) Create(data map[string]interface{}) map[string]interf
 	m.db.mu.Lock()
 	defer m.db.mu.Unlock()
 
+	// The store keeps its own copy: the caller goes on using its map.
+	record := cloneRecord(data)
+
 	// Auto-generate ID if not provided
-	if _, ok := data["id"]; !ok {
-		data["id"] = int64(len(m.db.data[m.name]) + 1)
+	if _, ok := record["id"]; !ok {
+		record["id"] = int64(len(m.db.data[m.name]) + 1)
 	}
 
-	m.db.data[m.name] = append(m.db.data[m.name], data)
-	return data
+	m.db.data[m.name] = append(m.db.data[m.name], record)
+	return cloneRecord(record)
 }
 
 // Update updates a record by ID
@@ -293,7 +306,7 @@ func (m *MockTableHandler) Update(id interface{}, data map[string]interface{}) m
 				record[k] = v
 			}
 			m.db.data[m.name][i] = record
-			return record
+			return cloneRecord(record)
 		}
 	}
 	return nil
@@ -349,7 +362,7 @@ func (m *MockTableHandler) Filter(column string, value interface{}) []interface{
 	result := make([]interface{}, 0)
 	for _, record := range m.db.data[m.name] {
 		if record[column] == value {
-			result = append(result, record)
+			result = append(result, cloneRecord(record))
 		}
 	}
 	return result
